@@ -21,97 +21,100 @@ import (
 
 type progSpec struct {
 	dir, recv, fn, lean string
+	lit string // when set: the function LITERAL that is the value of the field `lit:` in a composite literal inside fn's body
 }
 
 var progSpecs = []progSpec{
-	{"container/support", "defaultSingletonComponentRegistry", "AddSingletonFactory", "reg_AddSingletonFactory"},
-	{"container/support", "defaultSingletonComponentRegistry", "RemoveSingleton", "reg_RemoveSingleton"},
-	{"container/support", "defaultSingletonComponentRegistry", "AddSingleton", "reg_AddSingleton"},
-	{"container/support", "defaultSingletonComponentRegistry", "GetSingleton", "reg_GetSingleton"},
-	{"container/support", "defaultSingletonComponentRegistry", "GetSingletonOrCreateByFactory", "reg_GetSingletonOrCreateByFactory"},
-	{"container/support", "defaultSingletonComponentRegistry", "IsSingletonCurrentlyInCreation", "reg_IsSingletonCurrentlyInCreation"},
-	{"container/processors", "", "filterDependencies", "filterDependencies"},
-	{"container/processors", "dependencyFurtherMatchingPostProcessors", "PostProcessProperties", "furtherMatching_PostProcessProperties"},
-	{"container/factory", "defaultFactory", "doGetComponent", "fac_doGetComponent"},
-	{"container/factory", "defaultFactory", "createComponent", "fac_createComponent"},
-	{"container/factory", "defaultFactory", "doCreateComponent", "fac_doCreateComponent"},
-	{"container/factory", "defaultFactory", "populateComponent", "fac_populateComponent"},
-	{"container/factory", "defaultFactory", "getEarlyBeanReference", "fac_getEarlyBeanReference"},
-	{"container/factory", "defaultFactory", "GetComponentByName", "fac_GetComponentByName"},
-	{"container/factory", "defaultFactory", "Refresh", "fac_Refresh"},
-	{"component_definition", "Property", "Inject", "prop_Inject"},
-	{"component_definition", "Meta", "IsSelf", "meta_IsSelf"},
-	{"util/framework_helper", "", "SortOrderedComponents", "sortOrderedComponents"},
-	{"util/framework_helper", "", "orderedComponentComparator", "orderedComponentComparator"},
-	{"app", "App", "run", "app_run"},
-	{"app", "App", "callRunners", "app_callRunners"},
-	{"app", "App", "initConfiguration", "app_initConfiguration"},
-	{"app", "App", "initFactory", "app_initFactory"},
-	{"app", "App", "refresh", "app_refresh"},
-	{"configure", "configure", "loadConfigure", "cfg_loadConfigure"},
-	{"configure", "configure", "Initialize", "cfg_Initialize"},
-	{"util/sync2", "Map", "LoadOrStoreFn", "sync2_LoadOrStoreFn"},
-	{"util/sync2", "Map", "Load", "sync2_Load"},
-	{"util/fas", "", "Filter", "fas_Filter"},
-	{"container/factory", "PostProcessorRegistrationDelegate", "InitializeComponent", "del_InitializeComponent"},
-	{"container/factory", "PostProcessorRegistrationDelegate", "invokeInitMethods", "del_invokeInitMethods"},
-	{"container/factory", "PostProcessorRegistrationDelegate", "applyPostProcessBeforeInitialization", "del_applyBefore"},
-	{"container/factory", "PostProcessorRegistrationDelegate", "applyPostProcessAfterInitialization", "del_applyAfter"},
-	{"container/factory", "PostProcessorRegistrationDelegate", "ResolveAfterInstantiation", "del_ResolveAfterInstantiation"},
-	{"container/factory", "PostProcessorRegistrationDelegate", "GetEarlyBeanReference", "del_GetEarlyBeanReference"},
-	{"container/factory", "PostProcessorRegistrationDelegate", "ResolveBeforeInstantiation", "del_ResolveBeforeInstantiation"},
-	{"container/factory", "PostProcessorRegistrationDelegate", "applyPostProcessBeforeInstantiation", "del_applyBeforeInstantiation"},
-	{"container/factory", "PostProcessorRegistrationDelegate", "InvokeBeanFactoryPostProcessors", "del_InvokeBeanFactoryPostProcessors"},
-	{"container/processors", "dependencyAwarePostProcessors", "PostProcessProperties", "depAware_PostProcessProperties"},
-	{"container/processors", "dependencyFunctionAwarePostProcessors", "PostProcessProperties", "depFunc_PostProcessProperties"},
-	{"container/processors", "", "isActualKind", "isActualKind"},
-	{"util/el", "elHelper", "ReplaceAllContent", "el_ReplaceAllContent"},
-	{"container/processors", "configQuoteAwarePostProcessors", "PostProcessProperties", "quote_PostProcessProperties"},
-	{"container/processors", "propertiesAwarePostProcessors", "PostProcessProperties", "props_PostProcessProperties"},
-	{"container/processors", "valueAwarePostProcessors", "PostProcessProperties", "value_PostProcessProperties"},
-	{"container/processors", "expressionTagAwarePostProcessors", "PostProcessProperties", "expr_PostProcessProperties"},
-	{"container/processors", "validateAwarePostProcessors", "PostProcessProperties", "validate_PostProcessProperties"},
-	{"component_definition", "Meta", "scanFields", "meta_scanFields"},
-	{"util/reflectx", "", "ForEachFieldV2", "reflectx_ForEachFieldV2"},
-	{"container", "", "Or", "opt_Or"},
-	{"container", "", "And", "opt_And"},
-	{"container", "", "Type", "opt_Type"},
-	{"container", "", "InterfaceType", "opt_InterfaceType"},
-	{"container", "", "FuncName", "opt_FuncName"},
-	{"container", "", "FuncNameAndResult", "opt_FuncNameAndResult"},
-	{"container/support", "defaultDefinitionRegistry", "RegisterMeta", "dreg_RegisterMeta"},
-	{"container/support", "defaultDefinitionRegistry", "GetMetas", "dreg_GetMetas"},
-	{"container/support", "defaultDefinitionRegistry", "GetMetaByName", "dreg_GetMetaByName"},
-	{"container/support", "defaultDefinitionRegistry", "GetMetaOrRegister", "dreg_GetMetaOrRegister"},
-	{".", "", "Run", "ioc_Run"},
-	{".", "", "Register", "ioc_Register"},
-	{"app", "", "Options", "aopt_Options"},
-	{"app", "", "SetRegistry", "aopt_SetRegistry"},
-	{"app", "", "SetComponents", "aopt_SetComponents"},
-	{"app", "", "SetConfigure", "aopt_SetConfigure"},
-	{"app", "", "SetConfig", "aopt_SetConfig"},
-	{"app", "", "SetFactory", "aopt_SetFactory"},
-	{"app", "", "SetConfigLoader", "aopt_SetConfigLoader"},
-	{"app", "", "AddConfigLoader", "aopt_AddConfigLoader"},
-	{"app", "", "SetConfigBinder", "aopt_SetConfigBinder"},
-	{"util/framework_helper", "", "GetComponentNameWithAlias", "name_GetComponentNameWithAlias"},
-	{"util/framework_helper", "", "GetComponentName", "name_GetComponentName"},
-	{"component_definition", "Meta", "Name", "meta_Name"},
-	{"component_definition", "Meta", "SetName", "meta_SetName"},
-	{"component_definition", "Meta", "IsAlias", "meta_IsAlias"},
-	{"component_definition", "Meta", "dependOn", "meta_dependOn"},
-	{"component_definition", "Meta", "GetDependents", "meta_GetDependents"},
-	{"component_definition", "Meta", "SetProperties", "meta_SetProperties"},
-	{"component_definition", "Meta", "GetComponentProperties", "meta_GetComponentProperties"},
-	{"component_definition", "TagArg", "Parse", "arg_Parse"},
-	{"component_definition", "TagArg", "Set", "arg_Set"},
-	{"component_definition", "TagArg", "Add", "arg_Add"},
-	{"component_definition", "", "formatArgType", "arg_formatArgType"},
-	{"component_definition", "TagArg", "Find", "arg_Find"},
-	{"component_definition", "TagArg", "Has", "arg_Has"},
-	{"component_definition", "", "isIntersect", "arg_isIntersect"},
-	{"container/processors", "DefaultTagScanDefinitionRegistryPostProcessor", "PostProcessDefinitionRegistry", "scan_PostProcessDefinitionRegistry"},
-	{"component_definition", "", "NewProperty", "prop_NewProperty"},
+	{"container/support", "defaultSingletonComponentRegistry", "AddSingletonFactory", "reg_AddSingletonFactory", ""},
+	{"container/support", "defaultSingletonComponentRegistry", "RemoveSingleton", "reg_RemoveSingleton", ""},
+	{"container/support", "defaultSingletonComponentRegistry", "AddSingleton", "reg_AddSingleton", ""},
+	{"container/support", "defaultSingletonComponentRegistry", "GetSingleton", "reg_GetSingleton", ""},
+	{"container/support", "defaultSingletonComponentRegistry", "GetSingletonOrCreateByFactory", "reg_GetSingletonOrCreateByFactory", ""},
+	{"container/support", "defaultSingletonComponentRegistry", "IsSingletonCurrentlyInCreation", "reg_IsSingletonCurrentlyInCreation", ""},
+	{"container/processors", "", "filterDependencies", "filterDependencies", ""},
+	{"container/processors", "dependencyFurtherMatchingPostProcessors", "PostProcessProperties", "furtherMatching_PostProcessProperties", ""},
+	{"container/factory", "defaultFactory", "doGetComponent", "fac_doGetComponent", ""},
+	{"container/factory", "defaultFactory", "createComponent", "fac_createComponent", ""},
+	{"container/factory", "defaultFactory", "doCreateComponent", "fac_doCreateComponent", ""},
+	{"container/factory", "defaultFactory", "populateComponent", "fac_populateComponent", ""},
+	{"container/factory", "defaultFactory", "getEarlyBeanReference", "fac_getEarlyBeanReference", ""},
+	{"container/factory", "defaultFactory", "GetComponentByName", "fac_GetComponentByName", ""},
+	{"container/factory", "defaultFactory", "Refresh", "fac_Refresh", ""},
+	{"component_definition", "Property", "Inject", "prop_Inject", ""},
+	{"component_definition", "Meta", "IsSelf", "meta_IsSelf", ""},
+	{"util/framework_helper", "", "SortOrderedComponents", "sortOrderedComponents", ""},
+	{"util/framework_helper", "", "orderedComponentComparator", "orderedComponentComparator", ""},
+	{"app", "App", "run", "app_run", ""},
+	{"app", "App", "callRunners", "app_callRunners", ""},
+	{"app", "App", "initConfiguration", "app_initConfiguration", ""},
+	{"app", "App", "initFactory", "app_initFactory", ""},
+	{"app", "App", "refresh", "app_refresh", ""},
+	{"configure", "configure", "loadConfigure", "cfg_loadConfigure", ""},
+	{"configure", "configure", "Initialize", "cfg_Initialize", ""},
+	{"util/sync2", "Map", "LoadOrStoreFn", "sync2_LoadOrStoreFn", ""},
+	{"util/sync2", "Map", "Load", "sync2_Load", ""},
+	{"util/fas", "", "Filter", "fas_Filter", ""},
+	{"container/factory", "PostProcessorRegistrationDelegate", "InitializeComponent", "del_InitializeComponent", ""},
+	{"container/factory", "PostProcessorRegistrationDelegate", "invokeInitMethods", "del_invokeInitMethods", ""},
+	{"container/factory", "PostProcessorRegistrationDelegate", "applyPostProcessBeforeInitialization", "del_applyBefore", ""},
+	{"container/factory", "PostProcessorRegistrationDelegate", "applyPostProcessAfterInitialization", "del_applyAfter", ""},
+	{"container/factory", "PostProcessorRegistrationDelegate", "ResolveAfterInstantiation", "del_ResolveAfterInstantiation", ""},
+	{"container/factory", "PostProcessorRegistrationDelegate", "GetEarlyBeanReference", "del_GetEarlyBeanReference", ""},
+	{"container/factory", "PostProcessorRegistrationDelegate", "ResolveBeforeInstantiation", "del_ResolveBeforeInstantiation", ""},
+	{"container/factory", "PostProcessorRegistrationDelegate", "applyPostProcessBeforeInstantiation", "del_applyBeforeInstantiation", ""},
+	{"container/factory", "PostProcessorRegistrationDelegate", "InvokeBeanFactoryPostProcessors", "del_InvokeBeanFactoryPostProcessors", ""},
+	{"container/processors", "dependencyAwarePostProcessors", "PostProcessProperties", "depAware_PostProcessProperties", ""},
+	{"container/processors", "dependencyFunctionAwarePostProcessors", "PostProcessProperties", "depFunc_PostProcessProperties", ""},
+	{"container/processors", "", "isActualKind", "isActualKind", ""},
+	{"util/el", "elHelper", "ReplaceAllContent", "el_ReplaceAllContent", ""},
+	{"container/processors", "configQuoteAwarePostProcessors", "PostProcessProperties", "quote_PostProcessProperties", ""},
+	{"container/processors", "propertiesAwarePostProcessors", "PostProcessProperties", "props_PostProcessProperties", ""},
+	{"container/processors", "valueAwarePostProcessors", "PostProcessProperties", "value_PostProcessProperties", ""},
+	{"container/processors", "expressionTagAwarePostProcessors", "PostProcessProperties", "expr_PostProcessProperties", ""},
+	{"container/processors", "validateAwarePostProcessors", "PostProcessProperties", "validate_PostProcessProperties", ""},
+	{"component_definition", "Meta", "scanFields", "meta_scanFields", ""},
+	{"util/reflectx", "", "ForEachFieldV2", "reflectx_ForEachFieldV2", ""},
+	{"container", "", "Or", "opt_Or", ""},
+	{"container", "", "And", "opt_And", ""},
+	{"container", "", "Type", "opt_Type", ""},
+	{"container", "", "InterfaceType", "opt_InterfaceType", ""},
+	{"container", "", "FuncName", "opt_FuncName", ""},
+	{"container", "", "FuncNameAndResult", "opt_FuncNameAndResult", ""},
+	{"container/support", "defaultDefinitionRegistry", "RegisterMeta", "dreg_RegisterMeta", ""},
+	{"container/support", "defaultDefinitionRegistry", "GetMetas", "dreg_GetMetas", ""},
+	{"container/support", "defaultDefinitionRegistry", "GetMetaByName", "dreg_GetMetaByName", ""},
+	{"container/support", "defaultDefinitionRegistry", "GetMetaOrRegister", "dreg_GetMetaOrRegister", ""},
+	{".", "", "Run", "ioc_Run", ""},
+	{".", "", "Register", "ioc_Register", ""},
+	{"app", "", "Options", "aopt_Options", ""},
+	{"app", "", "SetRegistry", "aopt_SetRegistry", ""},
+	{"app", "", "SetComponents", "aopt_SetComponents", ""},
+	{"app", "", "SetConfigure", "aopt_SetConfigure", ""},
+	{"app", "", "SetConfig", "aopt_SetConfig", ""},
+	{"app", "", "SetFactory", "aopt_SetFactory", ""},
+	{"app", "", "SetConfigLoader", "aopt_SetConfigLoader", ""},
+	{"app", "", "AddConfigLoader", "aopt_AddConfigLoader", ""},
+	{"app", "", "SetConfigBinder", "aopt_SetConfigBinder", ""},
+	{"util/framework_helper", "", "GetComponentNameWithAlias", "name_GetComponentNameWithAlias", ""},
+	{"util/framework_helper", "", "GetComponentName", "name_GetComponentName", ""},
+	{"component_definition", "Meta", "Name", "meta_Name", ""},
+	{"component_definition", "Meta", "SetName", "meta_SetName", ""},
+	{"component_definition", "Meta", "IsAlias", "meta_IsAlias", ""},
+	{"component_definition", "Meta", "dependOn", "meta_dependOn", ""},
+	{"component_definition", "Meta", "GetDependents", "meta_GetDependents", ""},
+	{"component_definition", "Meta", "SetProperties", "meta_SetProperties", ""},
+	{"component_definition", "Meta", "GetComponentProperties", "meta_GetComponentProperties", ""},
+	{"component_definition", "TagArg", "Parse", "arg_Parse", ""},
+	{"component_definition", "TagArg", "Set", "arg_Set", ""},
+	{"component_definition", "TagArg", "Add", "arg_Add", ""},
+	{"component_definition", "", "formatArgType", "arg_formatArgType", ""},
+	{"component_definition", "TagArg", "Find", "arg_Find", ""},
+	{"component_definition", "TagArg", "Has", "arg_Has", ""},
+	{"component_definition", "", "isIntersect", "arg_isIntersect", ""},
+	{"container/processors", "DefaultTagScanDefinitionRegistryPostProcessor", "PostProcessDefinitionRegistry", "scan_PostProcessDefinitionRegistry", ""},
+	{"component_definition", "", "NewProperty", "prop_NewProperty", ""},
+	{"container/processors", "", "NewValueAwarePostProcessors", "scan_valueExtract", "ExtractHandler"},
+	{"container/processors", "", "NewPropertiesAwarePostProcessors", "scan_markerExtract", "ExtractHandler"},
 }
 
 // conversions whose single argument is passed through unchanged
@@ -586,6 +589,19 @@ func (t *tr) stmt(s ast.Stmt) []string {
 					}
 				}
 			}
+			if lhs, ok := identNames(x.Lhs); ok && len(x.Rhs) == len(x.Lhs) && len(x.Lhs) > 1 {
+				// a, b = x, y: every right-hand side is evaluated before any assignment; the temporaries live in a block of their own
+				var pre, post []string
+				for i := range x.Rhs {
+					tmp := fmt.Sprintf("$rhs%d", i)
+					pre = append(pre, fmt.Sprintf(".define [%s] %s", lq(tmp), t.expr(x.Rhs[i])))
+					post = append(post, fmt.Sprintf("%s [%s] (.var %s)", kind, lq(lhs[i]), lq(tmp)))
+				}
+				if x.Tok == token.ASSIGN {
+					return []string{fmt.Sprintf(".ifs [] (.bool true) [%s] []", strings.Join(append(pre, post...), ", "))}
+				}
+				return append(pre, post...)
+			}
 			return []string{t.unsupported("assignment form", x)}
 		case token.ADD_ASSIGN, token.SUB_ASSIGN:
 			if lhs, ok := identNames(x.Lhs); ok && len(lhs) == 1 && len(x.Rhs) == 1 {
@@ -716,6 +732,23 @@ func progOf(repo string, sp progSpec) string {
 	fd := findFunc(files, sp.recv, sp.fn)
 	if fd == nil || fd.Body == nil {
 		return fmt.Sprintf("def %s : Func := { name := %s, params := [], body := [.unsupported \"function not found\"] }\n", sp.lean, lq(sp.fn))
+	}
+	if sp.lit != "" {
+		var lit *ast.FuncLit
+		ast.Inspect(fd.Body, func(n ast.Node) bool {
+			if kv, ok := n.(*ast.KeyValueExpr); ok && lit == nil {
+				if id, ok := kv.Key.(*ast.Ident); ok && id.Name == sp.lit {
+					if fl, ok := kv.Value.(*ast.FuncLit); ok {
+						lit = fl
+					}
+				}
+			}
+			return lit == nil
+		})
+		if lit == nil {
+			return fmt.Sprintf("def %s : Func := { name := %s, params := [], body := [.unsupported \"function literal not found\"] }\n", sp.lean, lq(sp.fn+"."+sp.lit))
+		}
+		fd = &ast.FuncDecl{Name: fd.Name, Type: lit.Type, Body: lit.Body}
 	}
 	t := &tr{pkgs: map[string]bool{}, tparams: map[string]bool{}}
 	// the file that holds the function: its imports
